@@ -47,6 +47,9 @@ func ctxParams(ctx *types.Context) string {
 
 func runC15(c *Ctx) {
 	r := c.R
+	if r.Chance(1, 3) {
+		c15LongLived(c)
+	}
 	for k := 0; k < 120 && !c.Violated(); k++ {
 		if k%2 == 0 {
 			// ---- path version ----
@@ -266,6 +269,54 @@ func runC15(c *Ctx) {
 					c.Violate(fmt.Sprintf("the first matcher answered accepted=%v, then %v on the same request after another matcher looked at it", wantOK, again), det)
 				}
 			}
+		}
+	}
+}
+
+// c15LongLived: one header-version matcher lives as long as the server and sees many different Accept texts, each of
+// them more than once and in another order: its answer for a header depends on that header alone, never on how many
+// or which ones came before.
+func c15LongLived(c *Ctx) {
+	r := c.R
+	vs := []string{"1", "2.0", "beta"}
+	param := ref.Pick(r, []string{"ver", ""})
+	m := mux.NewHeaderVersion(param, "", func(error) {}, vs...)
+	type hd struct {
+		text, val string
+		ok        bool
+	}
+	var hs []hd
+	for i, n := 0, r.Range(20, 60); i < n; i++ {
+		val := ref.Pick(r, []string{"1", "2.0", "beta", "3", "1.0", "2", "Beta", "10"})
+		text := fmt.Sprintf("%s; version=%s; n=%d", ref.Pick(r, []string{"application/json", "text/html", "a/b"}), val, i)
+		if r.Chance(1, 5) {
+			text = fmt.Sprintf("a/b;n=%d", i) // no version at all
+			val = ""
+		}
+		hs = append(hs, hd{text, val, contains(vs, val)})
+	}
+	for round := 0; round < 3 && !c.Violated(); round++ {
+		order := make([]int, len(hs))
+		for i := range order {
+			order[i] = i
+		}
+		ref.Shuffle(r, order)
+		for _, i := range order {
+			h := hs[i]
+			req := &http.Request{Method: "GET", URL: &url.URL{Path: "/p"}, Header: http.Header{"Accept": {h.text}}, Host: "h"}
+			ctx := &types.Context{}
+			got := m.Match(req, ctx)
+			c.Eval()
+			want := map[string]string{}
+			if h.ok && param != "" {
+				want[param] = h.val
+			}
+			if got != h.ok || ctxParams(ctx) != fmtParams(want) {
+				c.Violate(fmt.Sprintf("a header-version matcher that has judged %d different headers answers accepted=%v params=%s for %q (round %d), expected accepted=%v params=%s",
+					len(hs), got, ctxParams(ctx), h.text, round+1, h.ok, fmtParams(want)), map[string]any{"versions": vs, "param": param, "distinct_headers": len(hs)})
+				return
+			}
+			c.Class("long_lived_header_matcher_judged")
 		}
 	}
 }
